@@ -34,6 +34,12 @@ def judge(ctx, cases, results, verdicts_by_dialect):
     for (sql, d, kind), res, verdict in zip(cases, results, verdicts_by_dialect):
         tr = res['trace']
         accepted_run = tr['outcome'] == 'accepted' or res['final'] == 'tree'
+        if verdict is not None and 'DRIFT' in verdict[1]:
+            ctx.cov['drift'] = ctx.cov.get('drift', 0) + 1
+            if ctx.cov['drift'] <= 3:
+                ctx.note('run is not a SlyDriver behaviour under the tables (judged by the table-free Derivation '
+                         'replay instead): %r [%s]' % (sql[:80], d))
+            verdict = (verdict[0], [f for f in verdict[1] if f != 'DRIFT'], [])
         if verdict is None:
             if accepted_run:
                 ctx.violation('accepted-not-a-derivation:%s' % d,
